@@ -24,6 +24,7 @@ type negCfg struct {
 	sm        bool     // advertise stream management after auth
 	smID      string   // id handed out by <enabled/>
 	jid       string   // bound JID to return
+	resumedH  int      // h attribute of <resumed/>
 	streamIDs []string
 	// pick chooses the answer for a step; alts[0] is the success / default answer.
 	pick func(step string, alts ...string) string
@@ -137,6 +138,34 @@ func (s *srvConn) drainAfterFailure(r *negRec) {
 	}
 }
 
+// drainAfterFailureLenient is drainAfterFailure for the case where a client that wrongly carries
+// on would otherwise wait forever for answers: bind and session requests are answered, so that
+// "Connect returned nil although a step failed" is observed as such and not as a hang.
+func (s *srvConn) drainAfterFailureLenient(r *negRec) {
+	for {
+		u := s.read()
+		switch u.kind {
+		case "eof":
+			s.close()
+			return
+		case "close":
+			s.send("</stream:stream>")
+			s.close()
+			return
+		case "element", "open":
+			r.After = append(r.After, u.name)
+			if u.name == "iq" {
+				id := attr(u.raw, "id")
+				if strings.Contains(u.raw, nsBind) {
+					s.send(fmt.Sprintf("<iq type='result' id='%s'><bind xmlns='%s'><jid>user@example.org/x</jid></bind></iq>", id, nsBind))
+				} else {
+					s.send(fmt.Sprintf("<iq type='result' id='%s'/>", id))
+				}
+			}
+		}
+	}
+}
+
 // openStream answers a stream header. It returns false when the connection is over.
 func (s *srvConn) openStream(cfg *negCfg, r *negRec, step string) bool {
 	a := cfg.pick(step, "ok", "wrong-element", "garbage", "close")
@@ -148,8 +177,26 @@ func (s *srvConn) openStream(cfg *negCfg, r *negRec, step string) bool {
 		} else {
 			s.streamID = fmt.Sprintf("sid-%d-%s", s.k, step)
 		}
-		s.send(s.header("jabber:client") + s.features(cfg, r))
-		return true
+		// the features that follow the header may be replaced by some other well-formed element
+		f := cfg.pick(step+"-features", "features", "message-instead", "sasl-success-instead", "ack-request-instead", "iq-instead")
+		if f != "features" {
+			r.answer(step+"-features", f, false)
+		}
+		switch f {
+		case "features":
+			s.send(s.header("jabber:client") + s.features(cfg, r))
+			return true
+		case "message-instead":
+			s.send(s.header("jabber:client") + "<message xmlns='jabber:client' from='example.org'><body>welcome</body></message>")
+		case "sasl-success-instead":
+			s.send(s.header("jabber:client") + "<success xmlns='urn:ietf:params:xml:ns:xmpp-sasl'/>")
+		case "ack-request-instead":
+			s.send(s.header("jabber:client") + "<r xmlns='urn:xmpp:sm:3'/>")
+		case "iq-instead":
+			s.send(s.header("jabber:client") + "<iq xmlns='jabber:client' type='result' id='1'/>")
+		}
+		s.drainAfterFailureLenient(r)
+		return false
 	case "wrong-element":
 		s.send("<?xml version='1.0'?><foo xmlns='urn:not-a-stream'>")
 	case "garbage":
@@ -325,7 +372,7 @@ func (s *srvConn) serve(cfg *negCfg, r *negRec) {
 			r.answer("resume", a, a == "resumed-same" || strings.HasPrefix(a, "failed"))
 			switch a {
 			case "resumed-same":
-				s.send(fmt.Sprintf("<resumed xmlns='%s' previd='%s' h='0'/>", nsSM, prev))
+				s.send(fmt.Sprintf("<resumed xmlns='%s' previd='%s' h='%d'/>", nsSM, prev, cfg.resumedH))
 				r.Resumed = true
 				r.Established = true
 				if cfg.established != nil {
